@@ -104,12 +104,13 @@ pub fn intersect_cc<'a>(mut a: &'a Circle, mut b: &'a Circle) -> CircleIntersect
     } else if d < a.r - b.r + EPS {
         CircleIntersection::TouchInside(a.c + (b.c - a.c) / d * a.r)
     } else if d < a.r + b.r - EPS {
-        // proper crossing: the radical line meets the centre line at distance x from a.c,
-        // the two points are at height h above and below it
-        let x = (d * d + a.r * a.r - b.r * b.r) / (2.0 * d);
-        let h = (a.r * a.r - x * x).max(0.0).sqrt();
+        // proper crossing: the radical line meets the centre line at distance y from b.c (towards a.c),
+        // the two points are at height h above and below it; measured from the smaller circle b,
+        // because sqrt(a.r^2 - x^2) loses the small circle's scale when a.r >> b.r
+        let y = (d * d + b.r * b.r - a.r * a.r) / (2.0 * d);
+        let h = (b.r * b.r - y * y).max(0.0).sqrt();
         let dir = (b.c - a.c) / d;
-        let mid = a.c + dir * x;
+        let mid = b.c - dir * y;
         let par = Point::new(-dir.y, dir.x);
         CircleIntersection::Intersect(mid + par * h, mid - par * h)
     } else if d < a.r + b.r + EPS {
